@@ -8,7 +8,8 @@ cd "$wt" && git apply "$patch" || { echo "patch does not apply"; exit 2; }
 export GOFLAGS=-mod=mod GOPROXY=off GOSUMDB=off GOTOOLCHAIN=local
 go build ./... 2>&1 | tail -3
 mkdir -p /tmp/seedrun && cp /verif/known_findings.jsonl /tmp/seedrun/
-props=$(python3 -c "import json;print(' '.join(c['property_id'] for c in json.load(open('/verif/MANIFEST.json'))['checks']))")
+props=${PROPS:-}
+[ -z "$props" ] && props=$(python3 -c "import json;print(' '.join(c['property_id'] for c in json.load(open('/verif/MANIFEST.json'))['checks']))")
 for p in $props; do
   out=$(/verif/bin/argotcheck -property $p -tier quick -repo "$wt" -verif /tmp/seedrun 2>&1)
   echo "$out" | grep '^  violation' | cut -c1-330 | sed "s/^/[$p]/"
